@@ -1078,6 +1078,210 @@ pub fn check_render_case(case: &RenderCase, cx: &mut Cx) -> Res {
 }
 
 // ---------------------------------------------------------------------------------------------
+// Display through a `fmt::Formatter` that carries flags (`{:>12.3}`, `{:08}`, `{:+#}` ...)
+//
+// A `fmt::Formatter` is a writer like any other; the format spec it was created for (width, precision,
+// fill/alignment, sign, `#`, `0`) must not change how TEXT is written: fragments verbatim, `{label}` for
+// absent holes.
+
+/// A format spec chosen at runtime: one of a few fixed fill/alignment/sign/`#`/`0` variants plus runtime
+/// width and precision.
+#[derive(Serialize, Deserialize, Debug, Clone, PartialEq)]
+pub struct FmtSpec {
+    /// index into `FLAG_VARIANTS`
+    pub variant: u8,
+    pub width: Option<u8>,
+    pub precision: Option<u8>,
+}
+
+macro_rules! flag_variants {
+    ($($id:literal => $fl:literal),* $(,)?) => {
+        pub const FLAG_VARIANTS: &[&str] = &[$($fl),*];
+        /// `format!("{:<flags><width>.<precision>}", d)` with the flags of `spec`.
+        pub fn display_flagged(d: &dyn fmt::Display, spec: &FmtSpec) -> String {
+            let w = spec.width.map(|w| w as usize);
+            let p = spec.precision.map(|p| p as usize);
+            match (spec.variant % FLAG_VARIANTS.len() as u8, w, p) {
+                $(
+                    ($id, None, None) => format!(concat!("{:", $fl, "}"), d),
+                    ($id, Some(w), None) => format!(concat!("{:", $fl, "w$}"), d, w = w),
+                    ($id, None, Some(p)) => format!(concat!("{:", $fl, ".p$}"), d, p = p),
+                    ($id, Some(w), Some(p)) => format!(concat!("{:", $fl, "w$.p$}"), d, w = w, p = p),
+                )*
+                _ => unreachable!(),
+            }
+        }
+    };
+}
+flag_variants!(0 => "", 1 => "<", 2 => ">", 3 => "^", 4 => "*<", 5 => "*>", 6 => "-^", 7 => "+", 8 => "#", 9 => "0", 10 => "+#0", 11 => "_>+#");
+
+impl FmtSpec {
+    pub fn text(&self) -> String {
+        format!(
+            "{{:{}{}{}}}",
+            FLAG_VARIANTS[self.variant as usize % FLAG_VARIANTS.len()],
+            self.width.map(|w| w.to_string()).unwrap_or_default(),
+            self.precision.map(|p| format!(".{p}")).unwrap_or_default()
+        )
+    }
+}
+
+fn val_flagged(v: &Val, spec: &FmtSpec) -> String {
+    match v {
+        Val::S(x) => display_flagged(x, spec),
+        Val::I(x) => display_flagged(x, spec),
+        Val::U(x) => display_flagged(x, spec),
+        Val::Big(h, l) => display_flagged(&big(*h, *l), spec),
+        Val::F(x) => display_flagged(x, spec),
+        Val::B(x) => display_flagged(x, spec),
+    }
+}
+
+/// One piece of the expected flagged output.
+#[derive(Debug, Clone, PartialEq)]
+pub enum Piece {
+    /// must appear exactly: text fragments, `{label}` of absent holes, the output of a hole's own formatter
+    /// (our formatter functions use `write!`, whose arguments carry their own specs)
+    Fixed(String),
+    /// a plain hole with a value: the value is displayed with the formatter's flags inherited; `String` is
+    /// what std gives for the native value under the same flags
+    Value(String),
+}
+
+pub fn ref_flagged(parts: &[P], props: &[(String, Val)], spec: &FmtSpec) -> Vec<Piece> {
+    let mut out = Vec::new();
+    for p in parts {
+        match p {
+            P::T(t, _) => out.push(Piece::Fixed(t.clone())),
+            P::H(l, f, _) => match (first(props, l), f) {
+                (Some(v), Some(id)) => out.push(Piece::Fixed(ref_fmt(*id, v))),
+                (Some(v), None) => out.push(Piece::Value(val_flagged(v, spec))),
+                (None, _) => out.push(Piece::Fixed(format!("{{{l}}}"))),
+            },
+        }
+    }
+    out
+}
+
+/// Can `out` be cut into the pieces in order, every `Fixed` verbatim and every `Value` arbitrary?
+pub fn matches_verbatim_in_order(out: &str, pieces: &[Piece]) -> bool {
+    // merge into: fixed runs separated by wildcards
+    let mut runs: Vec<String> = vec![String::new()];
+    for p in pieces {
+        match p {
+            Piece::Fixed(s) => runs.last_mut().unwrap().push_str(s),
+            Piece::Value(_) => runs.push(String::new()),
+        }
+    }
+    if runs.len() == 1 {
+        return out == runs[0];
+    }
+    let (first_run, last_run) = (&runs[0], &runs[runs.len() - 1]);
+    if out.len() < first_run.len() + last_run.len() || !out.starts_with(first_run.as_str()) || !out.ends_with(last_run.as_str()) {
+        return false;
+    }
+    let mut rest = &out[first_run.len()..out.len() - last_run.len()];
+    for mid in &runs[1..runs.len() - 1] {
+        match rest.find(mid.as_str()) {
+            Some(i) => rest = &rest[i + mid.len()..],
+            None => return false,
+        }
+    }
+    true
+}
+
+#[derive(Serialize, Deserialize, Debug, Clone)]
+pub struct FlagCase {
+    pub parts: Vec<P>,
+    pub shape: Shape,
+    pub props: Vec<(String, Val)>,
+    pub spec: FmtSpec,
+    /// 0 = slice of tuples, 1 = own `Props` impl, 2 = `render(Empty).with_props(..)`, 3 = `Event::msg()`
+    pub via: u8,
+}
+
+fn judge_flagged(cx: &mut Cx, what: &str, got: &str, pieces: &[Piece], spec: &FmtSpec, parts: &[P], props: &[(String, Val)]) -> Res {
+    let want: String = pieces.iter().map(|p| match p { Piece::Fixed(s) | Piece::Value(s) => s.as_str() }).collect();
+    if got == want {
+        return Ok(());
+    }
+    if !matches_verbatim_in_order(got, pieces) {
+        return cx.fail(
+            "render/flagged-display-text-not-verbatim",
+            format!("{what} with {}: got {got:?}; text fragments / {{label}}s must appear verbatim and in order as in {pieces:?}; parts {parts:?} props {props:?}", spec.text()),
+        );
+    }
+    // the text is intact; only the way a VALUE took the inherited flags differs from std's formatting of
+    // the native value under the same flags (what the implementation has always done). The statement
+    // only says the value is written, so values written WITHOUT the outer flags are accepted as well.
+    let unflagged = ref_flagged(parts, props, &FmtSpec { variant: 0, width: None, precision: None });
+    let plain: String = unflagged.iter().map(|p| match p { Piece::Fixed(s) | Piece::Value(s) => s.as_str() }).collect();
+    if got == plain {
+        cx.dont_care();
+        cx.class("dontcare:flagged-values-written-without-the-outer-flags");
+        return Ok(());
+    }
+    cx.fail(
+        "render/flagged-display-value-formatting-differs",
+        format!("{what} with {}: got {got:?}, expected {want:?} (each plain value formatted with the same flags); parts {parts:?} props {props:?}", spec.text()),
+    )
+}
+
+pub fn check_flag_case(case: &FlagCase, cx: &mut Cx) -> Res {
+    let h = Built::new(case.parts.clone());
+    let eff = h.effective_parts(case.shape.form);
+    let base = h.template(case.shape.form);
+    let s1 = case.shape.conv.first().map(|c| convert(&base, *c));
+    let a1 = s1.as_ref().unwrap_or(&base);
+    let s2 = case.shape.conv.get(1).map(|c| convert(a1, *c));
+    let tpl = s2.as_ref().unwrap_or(a1);
+    let spec = &case.spec;
+
+    let pieces = ref_flagged(&eff, &case.props, spec);
+    let with_values = pieces.iter().any(|p| matches!(p, Piece::Value(_)));
+    let chars = |p: &P| match p {
+        P::T(t, _) => Some(t.chars().count()),
+        _ => None,
+    };
+    let bites = spec.width.map_or(false, |w| eff.iter().filter_map(chars).any(|n| n < w as usize))
+        || spec.precision.map_or(false, |p| eff.iter().filter_map(chars).any(|n| n > p as usize));
+    cx.class_if(spec.width.is_some() || spec.precision.is_some(), "display-with-width-or-precision");
+    cx.class_if(spec.width.is_some(), "flagged:width");
+    cx.class_if(spec.precision.is_some(), "flagged:precision");
+    cx.class_if(spec.variant % FLAG_VARIANTS.len() as u8 != 0, "flagged:fill-align-sign-alt-zero");
+    cx.class(if with_values { "flagged:plain-hole-with-value" } else { "flagged:no-value-inherits-flags(exact)" });
+    cx.class_if(bites, "flagged:width>fragment-or-precision<fragment");
+    // non-trivial: a width larger than some text fragment or a precision smaller than one
+    cx.nontrivial(bites);
+
+    let tuples: Vec<(&str, Value<'_>)> = case.props.iter().map(|(k, v)| (&**k, v.value())).collect();
+    let list = ListProps(&case.props);
+    let got = catch(|| match case.via % 4 {
+        0 => display_flagged(&tpl.render(&tuples[..]), spec),
+        1 => display_flagged(&tpl.render(&list), spec),
+        2 => display_flagged(&tpl.render(Empty).with_props(&tuples[..]), spec),
+        _ => {
+            let evt = emit::Event::new(emit::Path::new_raw("c16"), tpl.by_ref(), Empty, &tuples[..]);
+            let out = display_flagged(&evt.msg(), spec);
+            out
+        }
+    });
+    let got = match got {
+        Ok(g) => g,
+        Err(p) => return cx.fail("render/flagged-display-panics", format!("Display of Render with {} panicked: {}; parts {eff:?}", spec.text(), p.msg)),
+    };
+    judge_flagged(cx, "Display of Render", &got, &pieces, spec, &eff, &case.props)?;
+
+    // the template itself displays as its rendering without properties: no value anywhere, so exact
+    let bare = ref_flagged(&eff, &[], spec);
+    let got = match catch(|| display_flagged(tpl, spec)) {
+        Ok(g) => g,
+        Err(p) => return cx.fail("render/flagged-display-panics", format!("Display of Template with {} panicked: {}; parts {eff:?}", spec.text(), p.msg)),
+    };
+    judge_flagged(cx, "Display of Template", &got, &bare, spec, &eff, &[])
+}
+
+// ---------------------------------------------------------------------------------------------
 // Engine E6: the same cases decoded from fuzzer bytes (libFuzzer target `template_eq_render`)
 
 /// Byte decoder for the three case types. Every choice consumes whole bytes from the FRONT of the input
